@@ -776,6 +776,13 @@ func (p *Proxy) handle(ctx *Context, conn net.Conn, brw *bufio.ReadWriter) error
 		}
 	}
 
+	if req.Method == "HEAD" && res.ContentLength < 0 && len(res.TransferEncoding) == 0 {
+		// A response to HEAD has no body, whatever its header says about one. Left at "length
+		// unknown", Response.Write would delimit the (absent) body by closing the connection
+		// and announce Connection: close - which nobody asked for and the proxy does not do.
+		res.ContentLength = 0
+	}
+
 	err = res.Write(brw)
 	if err != nil {
 		log.Errorf("martian: got error while writing response back to client: %v", err)
